@@ -160,7 +160,7 @@ theorem tail_core {X Y : Forest} {q : Nat} {vq : Value} {t : HTree} {A : List HT
       have hwt : w.value.isText = true := isText_of_some hta
       have hr2 : X.addConsolidate t.handle (some w.handle) (X.nextSibling w.handle) =
           ((X.setValue w.handle (.text (ta ++ tc))).spliceOut t.handle, true) :=
-        Forest.addConsolidate_prev (hcons.trans hc) (hXc.trans htd) (hXw.trans hta) _
+        Forest.addConsolidate_prev (hcons.trans hc) (hXc.trans htd) (hXw.trans hta) _ hcw
       unfold insertAfterTail
       rw [hr2]
       simp only [if_true]
@@ -201,6 +201,7 @@ theorem tail_core {X Y : Forest} {q : Nat} {vq : Value} {t : HTree} {A : List HT
               ((X.setValue kb.handle (.text (tc ++ tb))).spliceOut t.handle, true) := by
             rw [hnext, hnx]
             exact Forest.addConsolidate_next (hcons.trans hc) (hXc.trans htd) hprev (hkbX.trans htb)
+              (hcB kb (by simp))
           unfold insertAfterTail
           rw [hr2]
           simp only [if_true]
